@@ -16,7 +16,7 @@ import (
 func init() {
 	register(&Property{
 		ID: "C03",
-		Rule: "sessions of 50..500 numbered lines over 6 verbs with 1..4 foreground and 0..2 background handlers per verb; handler durations drawn from {return, Gosched storm, 50..500us sleep, wait until the receive " +
+		Rule: "sessions of 50..500 numbered lines over 6 harness-only verbs plus PING, PRIVMSG, NOTICE, PONG, MODE (verbs with built-in handlers or special parsing) with 1..4 foreground and 0..2 background handlers per verb; handler durations drawn from {return, Gosched storm, 50..500us sleep, wait until the receive " +
 			"goroutine has logged the next line}; byte stream cut per byte / PRNG sizes / one segment / inside CRLF, lines of 4094..4098 and 20000 bytes; a 001 welcome at a PRNG position; ended by drain+Close, abrupt Close, EOF or read error " +
 			"with handlers still running; GOMAXPROCS 1,2,4,16 under the race detector. Offline oracle over the ENTER/EXIT event log: open foreground invocations always belong to one line, dispatched sequence numbers strictly increase " +
 			"(equal to what was sent when the session was drained), every handler of a verb ran exactly once per dispatched line, no handler of a later line enters before all foreground handlers of earlier lines exited, CONNECTED placement " +
@@ -43,10 +43,11 @@ func init() {
 type c03Sent struct {
 	seq  int
 	verb string
+	size int // bytes of the line as sent (without CRLF)
 }
 
 func runC03(c *Ctx) {
-	sessions := c.Pick(15, 330)
+	sessions := c.Pick(60, 500)
 	procs, salt := c.Arg("procs", "?"), c.Arg("salt", "")
 	lg := rig.NewLog()
 	logger := rig.NewCapLogger(nil)
@@ -92,8 +93,12 @@ func runC03(c *Ctx) {
 		atomic.StoreInt64(&recvSeen, -1)
 
 		s := NewSession(SessionOpts{Flood: true, Log: lg})
-		nFg := make([]int, 6)
-		nBg := make([]int, 6)
+		// six harness-only verbs plus verbs with built-in handlers or special parsing: a loop that treats
+		// some verb specially (fast paths, priorities) must obey the same ordering
+		verbNames := []string{"V0", "V1", "V2", "V3", "V4", "V5", "PING", "PRIVMSG", "NOTICE", "PONG", "MODE"}
+		nV := len(verbNames)
+		nFg := make([]int, nV)
+		nBg := make([]int, nV)
 		hid := 0
 		dur := func(rr interface{ Intn(int) int }, seq int) {
 			switch durMix {
@@ -124,22 +129,25 @@ func runC03(c *Ctx) {
 		}
 		mk := func(kind string, h int) client.HandlerFunc {
 			return func(_ *client.Conn, l *client.Line) {
-				seq, _ := strconv.Atoi(l.Args[0])
-				lg.Add(rig.Event{Kind: kind + "E", Seq: seq, H: h})
+				seq, err := strconv.Atoi(strings.TrimLeft(l.Args[0], "#"))
+				if err != nil {
+					return // not a numbered session line (e.g. the harness's own wire marker)
+				}
+				lg.Add(rig.Event{Kind: kind + "E", Seq: seq, H: h, S: fmt.Sprint(len(l.Raw))})
 				dur(rig.Rand(c.Seed, "C03d", idx, h, seq), seq)
 				lg.Add(rig.Event{Kind: kind + "X", Seq: seq, H: h})
 			}
 		}
-		for v := 0; v < 6; v++ {
+		for v := 0; v < nV; v++ {
 			nFg[v] = 1 + r.Intn(4)
 			nBg[v] = r.Intn(3)
 			for k := 0; k < nFg[v]; k++ {
 				hid++
-				s.Conn.HandleFunc(fmt.Sprintf("V%d", v), mk("F", hid))
+				s.Conn.HandleFunc(verbNames[v], mk("F", hid))
 			}
 			for k := 0; k < nBg[v]; k++ {
 				hid++
-				s.Conn.HandleBG(fmt.Sprintf("v%d", v), mk("B", hid))
+				s.Conn.HandleBG(strings.ToLower(verbNames[v]), mk("B", hid))
 			}
 		}
 		var connNick atomic.Value
@@ -172,12 +180,23 @@ func runC03(c *Ctx) {
 				stream = append(stream, fmt.Sprintf(":srv 001 %s :Welcome %s!u@h\r\n", welcomeNick, welcomeNick)...)
 				lineEnds = append(lineEnds, len(stream))
 			}
-			v := r.Intn(6)
-			verb := fmt.Sprintf("V%d", v)
+			v := r.Intn(nV)
+			if r.Intn(3) != 0 {
+				v = r.Intn(6)
+			}
+			verb := verbNames[v]
 			if r.Intn(4) == 0 {
-				verb = "v" + verb[1:]
+				verb = strings.ToLower(verb)
 			}
 			l := fmt.Sprintf(":srv %s %d", verb, i)
+			switch verbNames[v] {
+			case "PRIVMSG", "NOTICE":
+				l = fmt.Sprintf(":n!u@h %s #%d :text", verb, i)
+			case "MODE":
+				l = fmt.Sprintf(":srv %s #%d +n", verb, i)
+			case "PING", "PONG":
+				l = fmt.Sprintf("%s %d", verb, i)
+			}
 			if longLines && r.Intn(12) == 0 {
 				total := []int{4094, 4095, 4096, 4097, 4098, 20000}[r.Intn(6)]
 				pad := total - len(l) - 2 - 2 // " :" and CRLF
@@ -187,7 +206,7 @@ func runC03(c *Ctx) {
 			}
 			stream = append(stream, l+"\r\n"...)
 			lineEnds = append(lineEnds, len(stream))
-			sent = append(sent, c03Sent{i, strings.ToUpper(verb)})
+			sent = append(sent, c03Sent{i, strings.ToUpper(verb), len(l)})
 		}
 		var cuts []int
 		switch segMode {
@@ -304,6 +323,11 @@ func runC03(c *Ctx) {
 			}
 			switch e.Kind {
 			case "FE":
+				if e.Seq >= 0 && e.Seq < len(sent) && e.S != fmt.Sprint(sent[e.Seq].size) {
+					viol("line-not-whole", fmt.Sprintf("line %d was sent with %d bytes, the handler received %s bytes", e.Seq, sent[e.Seq].size, e.S))
+					bad = true
+					break
+				}
 				if len(open) > 0 && openSeq != e.Seq {
 					viol("overlap", fmt.Sprintf("foreground handler for line %d entered while handlers of line %d were still running", e.Seq, openSeq))
 					bad = true
@@ -375,7 +399,7 @@ func runC03(c *Ctx) {
 			// every dispatched line: each registered handler exactly once
 			hBase := 0
 			hOf := map[string][2][]int{} // verb -> (fg ids, bg ids)
-			for v := 0; v < 6; v++ {
+			for v := 0; v < nV; v++ {
 				var f, b []int
 				for k := 0; k < nFg[v]; k++ {
 					hBase++
@@ -385,7 +409,7 @@ func runC03(c *Ctx) {
 					hBase++
 					b = append(b, hBase)
 				}
-				hOf[fmt.Sprintf("V%d", v)] = [2][]int{f, b}
+				hOf[verbNames[v]] = [2][]int{f, b}
 			}
 			for _, d := range dispatched {
 				hs := hOf[sent[d].verb]
@@ -402,7 +426,17 @@ func runC03(c *Ctx) {
 			}
 			if !bad && endedBy == "drain" {
 				if len(dispatched) != len(sent) {
-					viol("lines-missing", fmt.Sprintf("%d of %d lines were delivered although the session was drained before closing", len(dispatched), len(sent)))
+					got := map[int]bool{}
+					for _, d := range dispatched {
+						got[d] = true
+					}
+					miss := ""
+					for _, snt := range sent {
+						if !got[snt.seq] {
+							miss += fmt.Sprintf(" #%d(%s)", snt.seq, snt.verb)
+						}
+					}
+					viol("lines-missing", fmt.Sprintf("%d of %d lines were delivered although the session was drained before closing; missing:%s", len(dispatched), len(sent), miss))
 					bad = true
 				} else {
 					for _, snt := range sent {
@@ -422,16 +456,10 @@ func runC03(c *Ctx) {
 			}
 		}
 		if !bad && welcomeAt >= 0 {
-			welcomeDispatched := false
-			// the welcome was dispatched iff some line >= welcomeAt was dispatched, or CONNECTED seen
-			for _, d := range dispatched {
-				if d >= welcomeAt {
-					welcomeDispatched = true
-				}
-			}
 			if nCE > 1 {
 				viol("connected-count", fmt.Sprintf("CONNECTED delivered %d times for one welcome", nCE))
-			} else if nCE == 0 && (welcomeDispatched || endedBy == "drain") {
+			} else if nCE == 0 && endedBy == "drain" {
+				// (with an abrupt end the welcome itself may be among the discarded lines while a later one is still dispatched)
 				viol("connected-missing", "welcome line was processed but CONNECTED was never delivered")
 			} else if nCE == 1 {
 				for s2, t := range lastFgExit {
